@@ -103,6 +103,10 @@ SplitRuns(inp, ls, width) ==       \* assumes Conserved
         /\ SumIW(inp, a, b) <= width
         /\ lineOf(a) # lineOf(b)}
 LettersOK(inp, ls, width) == SplitRuns(inp, ls, width) = {}
+\* Diagnosis (names the finding, demands nothing): every split run directly follows a grapheme that
+\* is not a letter and has no break opportunity after it (opening punctuation, no-break space)
+GluedRuns(inp, ls, width) ==
+  \A r \in SplitRuns(inp, ls, width) : r[1] > 1 /\ IGl(inp[r[1] - 1]) /\ ~ILt(inp[r[1] - 1])
 
 (* ---- 4. hard breaks ------------------------------------------------------ *)
 (* Paragraph number of input position i = number of line terminators before *)
